@@ -138,7 +138,23 @@ Contexts ==
                    \* K2 becomes the operand of a connective: it is still a constraint of the problem, its name stays taken
                    [kind |-> "constraint", cls |-> "Not", name |-> "N1", operand |-> "K2", optional |-> FALSE],
                    [kind |-> "indicator", name |-> "I1"],
-                   [kind |-> "buffer", name |-> "B1"] >> ]
+                   [kind |-> "buffer", name |-> "B1"] >>,
+    \* a few creations that are refused, then the probes: a refused element must not occupy its name
+    retry   |-> << [kind |-> "problem"],
+                   Tk("FixedDurationTask", "T1", FALSE), Tk("FixedDurationTask", "T2", TRUE), Tk("ZeroDurationTask", "T3", TRUE),
+                   [kind |-> "worker", name |-> "W1"], [kind |-> "worker", name |-> "W2"], [kind |-> "worker", name |-> "W3"],
+                   [kind |-> "cumulative", name |-> "CW", size |-> 2, cost2 |-> 0, productivity |-> 1],
+                   [kind |-> "cumulative", name |-> "CW2", size |-> 2, cost2 |-> 0, productivity |-> 1],
+                   [kind |-> "require", task |-> "T1", resource |-> "W1"],
+                   [kind |-> "require", task |-> "T2", resource |-> "W1"],
+                   [kind |-> "select", name |-> "New", workers |-> <<"W1", "W2">>, n |-> 3, bad |-> TRUE],
+                   [kind |-> "cumulative", name |-> "New", size |-> 1, cost2 |-> 0, productivity |-> 1, bad |-> TRUE],
+                   [duration |-> 0, bad |-> TRUE] @@ Tk("FixedDurationTask", "New", FALSE),
+                   [kind |-> "constraint", cls |-> "OptionalTaskForceSchedule", name |-> "New", task |-> "T1", optional |-> FALSE, bad |-> TRUE],
+                   [kind |-> "indicator", name |-> "I1"] >> ]
+
+\* operations marked bad are ill-formed on purpose: the library must refuse them and keep no trace of them
+Bad(o) == "bad" \in DOMAIN o /\ o.bad
 
 \* the context scripts are printed once, so that the harness replays exactly these
 ASSUME Mode = "probe" => PrintT(ToJson([contexts |-> Contexts]))
@@ -168,16 +184,19 @@ ConstraintProbes ==
            ts \in {<<"T2">>, <<"T2", "T3">>, <<"T1", "T2">>, <<"T1">>} }
   \cup { [kind |-> "constraint", cls |-> "ForceApplyNOptionalConstraints", name |-> "New", cons |-> cs, optional |-> FALSE] :
            cs \in {<<"K1">>, <<"K2">>, <<"K1", "K2">>} }
-  \cup { [kind |-> "constraint", cls |-> c, name |-> "New", resource |-> r, optional |-> op] :
+  \* bound: the bound of the single WorkLoad interval (0, 2): tight (1) or slack (4, more than a cumulative worker of
+  \* size 2 can do); the other classes ignore it
+  \cup { [kind |-> "constraint", cls |-> c, name |-> "New", resource |-> r, optional |-> op, bound |-> bd] :
            c \in {"WorkLoad", "ResourceUnavailable", "ResourcePeriodicallyUnavailable", "ResourceInterrupted",
                   "ResourcePeriodicallyInterrupted", "ResourceNonDelay", "ResourceTasksDistance"},
-           r \in {"W1", "W2", "W3", "CW", "CW2"}, op \in BOOLEAN }
+           r \in {"W1", "W2", "W3", "CW", "CW2"}, op \in BOOLEAN, bd \in {1, 4} }
 OtherProbes == { [kind |-> k, name |-> n] : k \in {"indicator", "buffer"}, n \in {"New", "I1", "B1", "T1"} }
 \* an objective over a declared indicator, with or without an explicit weight (weight2 = -1: none given; 0 is legal)
 ObjectiveProbes == { [kind |-> "objective", cls |-> c, name |-> "New", target |-> "I1", weight |-> w] :
                        c \in {"ObjectiveMinimizeIndicator", "ObjectiveMaximizeIndicator"}, w \in {-1, 0, 1, 3} }
 
-Probes == ReducedTaskProbes \cup WorkerProbes \cup CumulativeProbes \cup SelectProbes \cup ConstraintProbes \cup OtherProbes
+ReducedConstraintProbes == { o \in ConstraintProbes : ("bound" \in DOMAIN o /\ o.cls # "WorkLoad") => o.bound = 1 }
+Probes == ReducedTaskProbes \cup WorkerProbes \cup CumulativeProbes \cup SelectProbes \cup ReducedConstraintProbes \cup OtherProbes
             \cup ObjectiveProbes
 \* before any problem exists only the bare creation of each kind of element is probed
 BareProbes == { o \in Probes : o.name = "New" /\ (o.kind = "task" => (o.duration = 1 /\ o.work_amount = 0 /\ o.priority = 1 /\ o.min_duration = 0 /\ ~o.optional))
@@ -193,8 +212,9 @@ InitProbe ==
 
 RunContext ==
   /\ phase = "context" /\ step <= Len(Contexts[ctx])
-  /\ Assert(WellFormed(Contexts[ctx][step]), "context scripts are well-formed")
-  /\ Apply(Contexts[ctx][step])
+  /\ Assert(WellFormed(Contexts[ctx][step]) # Bad(Contexts[ctx][step]), "context scripts are well-formed, except the operations marked bad")
+  /\ IF Bad(Contexts[ctx][step]) THEN UNCHANGED <<active, reg, optTask, optCon, assigned, nAssigned>>
+     ELSE Apply(Contexts[ctx][step])
   /\ step' = step + 1
   /\ UNCHANGED <<phase, ctx, last, stageOf, remaining, order>>
 
@@ -212,7 +232,8 @@ Probe(o) ==
   /\ phase' = "done"
   /\ UNCHANGED <<ctx, step, stageOf, remaining, order>>
 
-ProbeSet == IF ctx = "none" THEN BareProbes ELSE IF ctx = "empty" THEN { o \in Probes : o.kind \in {"task", "worker", "cumulative", "indicator", "buffer"} } ELSE Probes
+ProbeSet == IF ctx = "retry" THEN { o \in Probes : o.name = "New" /\ o.kind \in {"select", "cumulative", "task", "constraint"} /\ (o.kind = "constraint" => o.cls # "Not") } ELSE
+            IF ctx = "none" THEN BareProbes ELSE IF ctx = "empty" THEN { o \in Probes : o.kind \in {"task", "worker", "cumulative", "indicator", "buffer"} } ELSE Probes
 
 NextProbe == RunContext \/ ContextDone \/ \E o \in ProbeSet : Probe(o)
 
